@@ -57,8 +57,13 @@ class Compiler:
         addr = start
         data = b""
 
-        local_symbol_prefix = f".local{self.next_local_symbol_prefix}."
-        self.next_local_symbol_prefix += 1
+        if state["context"] == "repeat" and "local_symbol_prefix" in state:
+            # A '.repeat' body cannot define labels, so a scope of its own
+            # would only hide the local labels of the place it stands in
+            local_symbol_prefix = state["local_symbol_prefix"]
+        else:
+            local_symbol_prefix = f".local{self.next_local_symbol_prefix}."
+            self.next_local_symbol_prefix += 1
 
         try:
             for insn in block.insns:
